@@ -52,12 +52,45 @@ def run(F, rep):
     opens = [f for f in opens if f.key.startswith("ragc_common::archive::")]
     if not rep.floor("C14-ANCHOR", len(opens), 1, "archive open function (calls File::open)"):
         return
+    # the root is the opener that parses the directory (a second opener must not take its place, see C14-OPEN)
+    opens.sort(key=lambda f: (0 if any(any(is_call(t, r"from_le_bytes$") for _, t in F.funcs[k].calls()) for k in G.reachable([f.key]) if k in F.funcs) else 1, f.key))
     root = opens[0]
     scope = sorted(k for k in G.reachable([root.key]) if F.funcs[k].crate == "ragc_common")
+    for o in opens[1:]:
+        scope = sorted(set(scope) | {k for k in G.reachable([o.key]) if F.funcs[k].crate == "ragc_common"})
     # writer-only callees are not reachable from open(); sanity: the deserialiser must be there
     deser = [k for k in scope if any(is_call(t, r"from_le_bytes$") for _, t in F.funcs[k].calls())]
     rep.floor("C14-ANCHOR", len(deser), 1, "footer deserialiser (reads the 8-byte LE length)")
     rep.stat("scope", scope)
+    # ------------------------------------------------------------ OPEN: no read handle without parsing this file's footer
+    # Every function of the archive module that opens a file for reading returns Ok only after the directory was parsed from
+    # THAT file: no path from File::open to an Ok return avoids the footer parser (a handle built from a copied directory
+    # accepts a file that was truncated in the meantime).
+    parsers = {k for k in deser if any(is_call(t, r"::seek$") for _, t in F.funcs[k].calls())} or set(deser)
+    reaches_parser = {k for k, v in G.transitive(lambda k: k in parsers).items() if v} | parsers
+    no = 0
+    for f in opens:
+        g = cfg_of(f)
+        oks = set(_ok_returns(f))
+        for bi, t in f.calls():
+            if not is_call(t, r"std::fs::File::open$"):
+                continue
+            no += 1
+            parsing = {b2 for b2, t2 in f.calls() if not t2.get("indirect") and t2["callee"] in reaches_parser}
+            seen, st, hit = set(), [t["t"]] if t["t"] is not None else [], None
+            while st:
+                b = st.pop()
+                if b in seen or b in parsing or f.blocks[b]["cleanup"]:
+                    continue
+                seen.add(b)
+                if b in oks:
+                    hit = b
+                    break
+                st.extend(g.succ[b])
+            rep.ob("C14-OPEN", "%s returns Ok only after the directory was parsed from the file it opened" % f.key.split("::", 1)[-1], hit is None,
+                   detail="an Ok return is reachable from File::open without a call that reaches the footer parser" if hit is not None else "every success path passes %s" % sorted(x.rsplit("::", 1)[-1] for x in parsers),
+                   site=site_of(f, t), key="C14-OPEN | %s | parse before Ok" % f.key)
+    rep.floor("C14-OPEN", no, 1, "File::open calls in the archive module")
 
     n_sites = 0
     used_table = set()
@@ -420,3 +453,15 @@ def _part_in_region(known, off, size, size_atoms):
                 return True, "guard: offset + size <= end of the data region (derived from the file size)"
     return False, ("no dominating comparison of offset+size against the end of the data region: a directory "
                    "parsed from garbage yields parts outside the file and later garbage-sized allocations")
+
+
+def _ok_returns(f):
+    out = []
+    for bi, b in enumerate(f.blocks):
+        if b["cleanup"]:
+            continue
+        for s_ in b["stmts"]:
+            if s_["k"] == "assign" and s_["pl"]["l"] == 0 and not s_["pl"]["p"] and s_["rv"]["k"] == "agg" and \
+                    s_["rv"].get("adt") == "core::result::Result" and s_["rv"]["var"] == "Ok":
+                out.append(bi)
+    return out
